@@ -166,6 +166,10 @@ DRIFT = {
     "VecAlgo3.reflect:double": 24, "VecAlgo3.reflect:float": 23, "VecAlgo4.orthogonal:double": 13, "VecAlgo4.orthogonal:float": 12,
     "VecAlgo4.project:double": 13, "VecAlgo4.project:float": 12, "VecAlgo4.reflect:double": 25, "VecAlgo4.reflect:float": 24,
 }
+# the "scaled" class of project / orthogonal / reflect (s times an exact power of two, |s|^2 outside the normal range): scale invariance makes its
+# clean-tree maxima those of the lattice class
+DRIFT.update({k.replace(":double", ":scaled:double").replace(":float", ":scaled:float"): v for k, v in list(DRIFT.items())
+              if k.startswith("VecAlgo") and (".project:" in k or ".orthogonal:" in k or ".reflect:" in k)})
 
 
 def parallel_repro(binary, idx_deps):
